@@ -22,6 +22,8 @@ import (
 	"net"
 	"net/netip"
 	"os"
+	"path/filepath"
+	"runtime"
 	"sort"
 	"strings"
 	"sync"
@@ -105,7 +107,9 @@ func c05ResetErr() error {
 
 func (c *c05Conn) Read(p []byte) (int, error) {
 	c.mu.Lock()
-	c.rlog = append(c.rlog, c05Read{c.got, len(p)})
+	if len(c.rlog) < 1<<16 {
+		c.rlog = append(c.rlog, c05Read{c.got, len(p)})
+	}
 	c.mu.Unlock()
 	n, err := c.read(p)
 	c.mu.Lock()
@@ -160,7 +164,12 @@ func (c *c05Conn) read(p []byte) (int, error) {
 			if c.eofN >= 3 {
 				// a caller spinning on EOF (the sniffer's need-more loop does) must let virtual
 				// time advance: burn 50 µs, but never sleep across an armed deadline.
-				d := 50 * time.Microsecond
+				// …and the longer the spin lasts the bigger the steps (50 µs doubling up to 1 s), so that a caller spinning
+				// WITHOUT a deadline reaches the scenario's virtual time limit in a few thousand reads instead of never
+				d := 50 * time.Microsecond << min((c.eofN-3)/3, 15)
+				if d > time.Second {
+					d = time.Second
+				}
 				if !dl.IsZero() && time.Until(dl) < d {
 					d = time.Until(dl)
 				}
@@ -685,11 +694,97 @@ type c05Live struct {
 // c05RunBatch plays the scenarios SIMULTANEOUSLY (one synctest bubble, one ControlPlane, shared pools)
 // against the real handleConn; each scenario has its own destination address and host name, by which
 // the scripted dialer finds its upstream.  All scenarios of a batch use the first one's sniffing window.
+// ---- bounds on one scenario / batch
+//
+// virtual: after c05VirtualLimit of virtual time every conn of the batch is closed (a handler that no longer returns by
+// itself then returns, hours late, and is compared — and reported — like any other scenario);
+// real: a watchdog OUTSIDE the bubble (real clock) ends the process when a batch takes more than c05WallLimit of wall
+// clock or the heap grows beyond c05HeapLimit: it flushes the streams, writes <stream>.hang (index + scenario) and
+// exits with status 3; checks/c05.py re-runs that scenario alone (VERIF_C05_ONLY) before it says anything.
+const (
+	c05VirtualLimit = 6 * time.Hour
+	c05WallLimit    = 90 * time.Second
+	c05HeapLimit    = 2 << 30
+)
+
+var (
+	c05Stream  string // stream being produced (for the hang record)
+	c05Index   int    // index of the scenario / batch being run
+	c05FlushFn func()
+)
+
+func c05Only() int {
+	v := os.Getenv("VERIF_C05_ONLY")
+	if v == "" {
+		return -1
+	}
+	n := -1
+	fmt.Sscanf(v, "%d", &n)
+	return n
+}
+
+func (s *c05Scn) describe() string {
+	d := fmt.Sprintf("kind=%s port=%d w=%d rcw=%s c=%s u=%s%s", s.kind, s.port, s.window, c05B(s.rcw), s.client.tok(), s.up.tok(), s.faultToks())
+	if len(d) > 3000 {
+		d = d[:3000] + "…"
+	}
+	return d
+}
+
+func c05Watch(scns []*c05Scn) (stop func()) {
+	done := make(chan struct{})
+	stream, idx, flush := c05Stream, c05Index, c05FlushFn
+	go func() {
+		limit := time.NewTimer(c05WallLimit)
+		defer limit.Stop()
+		tick := time.NewTicker(time.Second)
+		defer tick.Stop()
+		for {
+			why := ""
+			select {
+			case <-done:
+				return
+			case <-limit.C:
+				why = fmt.Sprintf("no result after %v of wall clock", c05WallLimit)
+			case <-tick.C:
+				var m runtime.MemStats
+				runtime.ReadMemStats(&m)
+				if m.HeapAlloc > c05HeapLimit {
+					why = fmt.Sprintf("heap grew to %d MiB", m.HeapAlloc>>20)
+				}
+			}
+			if why == "" {
+				continue
+			}
+			var ds []string
+			for _, s := range scns {
+				ds = append(ds, s.describe())
+			}
+			_ = os.WriteFile(filepath.Join(VOutDir(), stream+".hang"), []byte(fmt.Sprintf("%d\t%s\t%s\n", idx, why, strings.Join(ds, " || "))), 0o644)
+			if flush != nil {
+				flush()
+			}
+			os.Exit(3)
+		}
+	}()
+	return func() { close(done) }
+}
+
 func c05RunBatch(t *testing.T, cp *ControlPlane, ud *c05Dialer, scns []*c05Scn) []c05Result {
 	res := make([]c05Result, len(scns))
 	lives := make([]*c05Live, len(scns))
+	defer c05Watch(scns)()
 	synctest.Test(t, func(t *testing.T) {
 		w := &c05World{t0: time.Now()}
+		vlimit := time.AfterFunc(c05VirtualLimit, func() {
+			for _, l := range lives {
+				if l != nil {
+					_ = l.left.Close()
+					_ = l.right.Close()
+				}
+			}
+		})
+		defer vlimit.Stop()
 		cp.sniffingTimeout = time.Duration(scns[0].window) * time.Microsecond
 		cp.clearAllTcpSniffNegative()
 		byAddr := map[string]*c05Live{}
@@ -1013,6 +1108,7 @@ func c05GenScn(r *VRand, stats *VStats, forcedWindow int64) *c05Scn {
 	// ---- client first bytes
 	var head []byte
 	kind := ""
+	partial := false
 	if p53 {
 		switch r.Intn(11) {
 		case 9, 10:
@@ -1045,7 +1141,15 @@ func c05GenScn(r *VRand, stats *VStats, forcedWindow int64) *c05Scn {
 			kind, head = "dns-query-then-more", append(c05DnsFrame(r, false, "a.example"), c05DnsFrame(r, r.Bool(), "b.example")...)
 		}
 	} else {
-		switch r.Intn(11) {
+		switch r.Intn(12) {
+		case 11:
+			// only a PART of a ClientHello (record header, or header + some of the hello), usually with nothing after it:
+			// the sniffers keep answering need-more, the rest comes late, never, or the client ends / resets after the part —
+			// the sniffing window must release the connection, with the part replayed intact
+			h := c05ClientHello(r, s.host, 300)
+			k := []int{5, 6, 9, 20, len(h) / 2, len(h) - 1, r.Range(5, len(h)-1)}[r.Intn(7)]
+			kind, head = "tls-partial", h[:k]
+			partial = true
 		case 0, 1:
 			kind, head = "http", []byte("GET /"+s.host+" HTTP/1.1\r\nHost: "+s.host+"\r\nUser-Agent: x\r\n\r\n")
 		case 2:
@@ -1096,6 +1200,10 @@ func c05GenScn(r *VRand, stats *VStats, forcedWindow int64) *c05Scn {
 		}
 	}
 	nBulk := r.Intn(4)
+	if partial && r.Chance(0.7) {
+		nBulk = 0
+		stats.Inc("sniff.partial-hello-and-nothing-after-it")
+	}
 	for i := 0; i < nBulk; i++ {
 		step(c05Gap(r, s.window, p53))
 		var c c05Chunk
@@ -1294,6 +1402,15 @@ func c05Directed() []*c05Scn {
 		{port: 22, window: 100 * c05Ms, rcw: true, kind: "d.client-eof-grace",
 			client: c05Script{evs: []c05Ev{lit(1, "request")}, finT: 101},
 			up:     c05Script{evs: []c05Ev{lit(5*c05Sec+2, "inside"), lit(11*c05Sec+2, "outside")}, finT: 12*c05Sec + 2}},
+		// a fragmented TLS-looking first flight whose rest never comes: two need-more rounds, then silence, FIN much later —
+		// the connection must be released at the sniffing window (seed C05-h: only the first sniffer read had a deadline)
+		{port: 443, window: 100 * c05Ms, rcw: true, kind: "d.sniff-fragmented-hello-rest-never-comes",
+			client: c05Script{evs: []c05Ev{lit(1, "\x16\x03\x01\x02\x00\x01\x00\x01\xfc\x03\x03"), lit(20*c05Ms+1, "0123456789abcdef"), lit(40*c05Ms+1, "0123456789abcdef")}, finT: 50*c05Sec + 1},
+			up:     c05Script{evs: []c05Ev{lit(1*c05Sec+2, "banner")}, finT: 60*c05Sec + 2}},
+		// same, the client half-closes right after the second fragment (the sniffer's EOF spin must end at the window)
+		{port: 443, window: 100 * c05Ms, rcw: true, kind: "d.sniff-fragmented-hello-then-fin",
+			client: c05Script{evs: []c05Ev{lit(1, "\x16\x03\x01\x02\x00\x01\x00\x01\xfc\x03\x03"), lit(20*c05Ms+1, "0123456789abcdef")}, finT: 30*c05Ms + 1},
+			up:     c05Script{evs: []c05Ev{lit(1*c05Sec+2, "banner")}, finT: 5*c05Sec + 2}},
 		// ---- faults
 		// the upstream stops accepting bytes in the middle of the second client segment (partial write, then an error):
 		// it has received a prefix, both sides are closed at that moment
@@ -1345,7 +1462,14 @@ func TestVerifC05Conn(t *testing.T) {
 	if VThorough() {
 		n = 60000
 	}
+	c05Stream, c05FlushFn = "c05conn", func() { st.Close(); stats.Write("c05conn") }
+	c05Index = -1
+	only := c05Only()
 	emit := func(s *c05Scn) {
+		c05Index++
+		if only >= 0 && c05Index != only {
+			return
+		}
 		op, impl, ok, why := c05Run(t, cp, ud, s)
 		if !ok {
 			stats.Inc("discard." + why)
@@ -1356,6 +1480,9 @@ func TestVerifC05Conn(t *testing.T) {
 		stats.Inc("scn.port." + fmt.Sprint(s.port))
 		if f["dial"] == "-" {
 			stats.Inc("scn.no-dial")
+		}
+		if nm := c05Fields(op)["nm"]; strings.Count(nm, ",") >= 1 {
+			stats.Inc("sniff.several-need-more-rounds")
 		}
 		if of := c05Fields(op)["or"]; of != "-" && of != "" {
 			stats.Inc("sniff.bounded-read-oracle")
@@ -1402,6 +1529,8 @@ func TestVerifC05Concurrent(t *testing.T) {
 	stats := NewVStats()
 	ud := &c05Dialer{}
 	cp := c05ControlPlane(t, ud)
+	c05Stream, c05FlushFn = "c05par", func() { st.Close(); stats.Write("c05par") }
+	only := c05Only()
 	batches, k := 40, 16
 	if VThorough() {
 		batches = 700
@@ -1411,6 +1540,10 @@ func TestVerifC05Concurrent(t *testing.T) {
 		scns := make([]*c05Scn, k)
 		for i := range scns {
 			scns[i] = c05GenScn(r, stats, window)
+		}
+		c05Index = b
+		if only >= 0 && b != only {
+			continue
 		}
 		for i, res := range c05RunBatch(t, cp, ud, scns) {
 			if !res.ok {
